@@ -9,9 +9,13 @@ CONSTANTS
   FullOrder = TRUE
   Points <- NoPoints
   Feeds <- NoCatalog
+  PhaseMaps <- NoCatalog
+  ReKVals <- NoCatalog
+  MaxHist = 0
 INVARIANT Verdict
 INVARIANT PolyAgreesWithFold
 INVARIANT InactiveNotInExponent
 INVARIANT UntouchedGetNothing
 INVARIANT FeedExact
+INVARIANT CurrentConstantRules
 CHECK_DEADLOCK FALSE
